@@ -9,6 +9,8 @@ set_*_cipher arguments.  Installed values == reference derivation for the RFC's 
 outbound == server inbound and vice versa, directions share nothing, and the bytes on the wire
 after NEWKEYS decode and verify under the *reference* keys with the independent decoder.
 """
+import hashlib
+
 from vmc import core, fixtures as F, install, pktseam as P, sched as S, vsocket
 from vmc.refs import rfc4253 as R
 from paramiko.transport import Transport
@@ -194,6 +196,7 @@ def judge_handshake(cipher, mac, kex, obs, acc, replay):
         detail.update(dims)
         dims = dict(dims)
         dims["hash"] = hname
+        dims["negotiation"] = "symmetric"
         P.sig_violation(acc, clause, dims, detail, replay)
 
     installed = {}     # (role, epoch, direction) -> (key, iv, mac_key)
@@ -277,6 +280,127 @@ def judge_handshake(cipher, mac, kex, obs, acc, replay):
     return found
 
 
+# ------------------------------------------------------------------------------------ part C
+# RFC 4253 7.1 negotiates the two directions independently, so client->server and server->client may end up with
+# different ciphers and MACs (a peer that lists its algorithms in a different order per direction).  Two paramiko
+# peers never negotiate that, so it is driven at the pktseam seam: un-started Transports given the negotiated
+# names, keyed by the real _activate_outbound / _activate_inbound.
+PAIRS = tuple((c, m) for c in P.CIPHERS for m in P.MACS)
+HASHES = ("sha256", "sha384", "sha512", "sha1")
+
+
+class SeamTransport(RecTransport):
+    def __init__(self, sock):
+        RecTransport.__init__(self, sock, packetizer_class=F.RecPacketizer)
+
+
+def installed_of(t, d):
+    """(key, iv, mac key) a seam Transport installed for its `d` ("out" | "in") direction."""
+    want_enc = d == "out"
+    eng = [e for e in t.engine_log if (e[3] == Transport._ENCRYPT) == want_enc]
+    cl = [(a, kw) for (dd, a, kw) in t.packetizer.cipher_log if dd == d]
+    if len(eng) != 1 or len(cl) != 1 or cl[0][0]:
+        raise AssertionError("seam: unexpected key log shape %d/%d" % (len(eng), len(cl)))
+    _name, key, iv, _op, aead, engine = eng[0]
+    kw = cl[0][1]
+    if kw["block_engine"] is not engine:
+        raise AssertionError("seam: installed engine is not the derived one")
+    if aead:
+        iv = kw["iv_out" if d == "out" else "iv_in"]
+    return key, iv, kw["mac_key"]
+
+
+def asym_session(c2s, s2c, hname, acc):
+    """One negotiated session: suite `c2s` protects client->server, `s2c` server->client."""
+    halgo = getattr(hashlib, hname)
+    K, H = P.K_n(0), P.H_n(0)
+    neg = "symmetric" if c2s == s2c else "asymmetric"
+    replay = {"part": "C", "c2s": list(c2s), "s2c": list(s2c), "hash": hname}
+    found = []
+    per_dir = {}
+    for direction, own, other in (("c2s", c2s, s2c), ("s2c", s2c, c2s)):
+        cipher, mac = own
+        kind = R.CIPHERS[cipher][0]
+        gcm = kind == "gcm"
+
+        def bad(clause, dims, detail):
+            found.append(clause)
+            dims = dict(dims)
+            dims.update({"hash": hname, "negotiation": neg})
+            detail = dict(detail)
+            detail.update({"c2s": c2s, "s2c": s2c, "stream": direction})
+            detail.update(dims)
+            P.sig_violation(acc, clause, dims, detail, replay)
+
+        link = P.Link(direction, tclass=SeamTransport)
+        link.tx_switch(own + ("none",), hash_algo=halgo, other=other + ("none",))
+        msg = P.payload(23, 600)
+        link.send(msg)
+        wire = link.q.take_chunks()
+        if len(wire) != 2:
+            raise AssertionError("seam: %d socket writes for NEWKEYS + 1 message" % len(wire))
+        try:
+            link.rx_switch(own + ("none",), hash_algo=halgo, other=other + ("none",))
+            got = link.read()
+            got = bytes([got[0]]) + got[1]
+        except Exception as e:  # noqa: BLE001 - wrongly keyed receivers fail in many ways
+            got = repr(e)
+        ref = R.DirectionKeys(hname, K, H, P.SID0, direction, cipher, mac)
+        want = (ref.key, ref.iv, ref.mac_key)
+        sides = (("client" if direction == "c2s" else "server", "out", link.tx),
+                 ("server" if direction == "c2s" else "client", "in", link.rx))
+        vals = {}
+        for role, d, t in sides:
+            vals[d] = installed_of(t, d)
+            for what, g, w in zip(("key", "iv", "mac-key"), vals[d], want):
+                acc.ev()
+                if g != w:
+                    bad("installed-value-differs-from-rfc",
+                        {"value": what, "role": role, "direction": d + "bound", "exchange": "initial",
+                         "cipher-kind": kind, "mac": "-" if gcm else mac},
+                        {"got": g, "want": w})
+        for i, what in enumerate(("key", "iv", "mac-key")):
+            acc.ev()
+            if vals["out"][i] != vals["in"][i]:
+                bad("peers-disagree-on-installed-value", {"value": what, "stream": direction}, {})
+        per_dir[direction] = vals["out"]
+        if not found:
+            # the keys *used*: the sender's packet verifies under the reference keys, and its peer reads it
+            dec = R.decoder_for(hname, K, H, P.SID0, direction, cipher, mac, seq=1)
+            inf = dec.decode(wire[1])
+            acc.ev()
+            if inf.problems or inf.message != msg:
+                bad("wire-does-not-verify-under-rfc-keys",
+                    {"stream": direction, "problem": inf.problems[0] if inf.problems else "payload-differs",
+                     "exchange": "initial"}, {"decoded": inf.as_dict()})
+            acc.ev()
+            if got != msg:
+                bad("peer-cannot-read-under-its-installed-keys", {"stream": direction}, {"read": got})
+    if len(per_dir) == 2:
+        for i, what in enumerate(("key", "iv", "mac-key")):
+            acc.ev()
+            a, b = per_dir["c2s"][i], per_dir["s2c"][i]
+            if a is not None and a == b:
+                bad("directions-share-installed-value", {"value": what}, {})
+    return found
+
+
+def do_asym(item, acc):
+    _, c2s, hashes = item
+    for s2c in PAIRS:
+        for hname in hashes:
+            found = asym_session(c2s, s2c, hname, acc)
+            acc.count("seam_sessions")
+            if c2s != s2c:
+                acc.count("seam_sessions_asymmetric")
+            if not found:
+                acc.nt(("seam", c2s, s2c, hname))
+    if c2s == ("aes128-ctr", "hmac-sha2-256"):
+        acc.sample({"part": "C", "c2s": c2s, "s2c": "each of the 72 cipher x MAC pairs", "hashes": list(hashes),
+                    "compared": "installed key/iv/mac-key of sender and receiver per direction vs reference; peer vs "
+                                "peer; direction vs direction; one packet per direction decoded by the reference"})
+
+
 def do_handshake(item, acc):
     _, cipher, mac, kex = item
     replay = {"part": "B", "cipher": cipher, "mac": mac, "kex": kex}
@@ -296,7 +420,7 @@ def do_handshake(item, acc):
 
 
 def run_item(item, acc):
-    (do_kdf if item[0] == "kdf" else do_handshake)(item, acc)
+    {"kdf": do_kdf, "hs": do_handshake, "asym": do_asym}[item[0]](item, acc)
 
 
 def items_for(tier):
@@ -311,6 +435,8 @@ def items_for(tier):
         else:
             for k in HANDSHAKE_KEX:
                 items.append(("hs", c, m, k))
+    for i, a in enumerate(PAIRS):
+        items.append(("asym", a, (HASHES[(i + i // 8) % len(HASHES)],) if tier == "quick" else HASHES))
     return items
 
 
@@ -331,10 +457,11 @@ def main(tier):
                    "hash": {"sha1", "sha256", "sha384", "sha512"}, "K": set(k for k, _ in K_VALUES),
                    "role": {"client", "server"}, "direction": {"inbound", "outbound"}, "stream": {"c2s", "s2c"},
                    "exchange": {"initial", "re-key"}, "cipher-kind": {"ctr", "cbc", "3des"},
-                   "value": {"iv", "key", "mac-key"},
+                   "value": {"iv", "key", "mac-key"}, "negotiation": {"symmetric", "asymmetric"},
                    "mac": set(P.MACS)})
     ck.extra["bound"] = {"kex_classes_part_A": len(kex_cases(tier)), "K_values": len(K_VALUES), "n_max": NMAX,
-                         "cipher_mac_pairs": 72, "handshakes": len([i for i in items if i[0] == "hs"])}
+                         "cipher_mac_pairs": 72, "handshakes": len([i for i in items if i[0] == "hs"]),
+                         "seam_sessions_part_C": len(PAIRS) ** 2 * (1 if tier == "quick" else len(HASHES))}
     return ck.finish()
 
 
@@ -345,6 +472,8 @@ def replay(rec):
         K = dict(K_VALUES)[case["K"]]
         item = ("kdf", case["kex"] or "no-engine-fallback", case["kex"], case["hash"], (case["K"], K))
         do_kdf(item, acc)
+    elif case["part"] == "C":
+        asym_session(tuple(case["c2s"]), tuple(case["s2c"]), case["hash"], acc)
     else:
         do_handshake(("hs", case["cipher"], case["mac"], case["kex"]), acc)
     for v in acc.violations:
